@@ -606,7 +606,7 @@ def gen_descs(tier, rng, focus=None):
         if focus == "cb":
             opts["cb"] = str(rng.choice(["record", "record", "stop2"]))
         r = rng.random()
-        mixed = focus in (None, "kern")
+        mixed = focus in (None, "kern", "log")
         if focus == "scaler" or (mixed and r < 0.15):
             opts["scaler"] = float(10 ** rng.uniform(-3, 3))
         elif focus == "upd" or (mixed and r < 0.4):
